@@ -403,7 +403,11 @@ package py
 //@   requires nn: v != nil
 //@   modifies *
 //@   modifies lasterr[0]
+//@   pureif is(v, Tuple) || is(v, *List)
 //@   ensures fail: nextFailed() ==> err == lasterr[0]
+//@   ensures tup: is(v, Tuple) ==> err == nil && r == v.(Tuple)
+//@   ensures lst: is(v, *List) ==> err == nil && len(r) == len(old(v.(*List).Items)) && (len(r) > 0 ==> fresh(r)) && off(r) == 0
+//@   ensures lstitems: is(v, *List) ==> forall k in [0, len(r)): r[k] == old(v.(*List).Items[k])
 
 //@ func SequenceSet(v) (r, err)
 //@   requires nn: v != nil
